@@ -102,8 +102,17 @@ class C06(Prop):
                         continue
                     want = vals[a["id"]]
                     got = kv(g)
+                    wants = {"a": want, "b": want}
+                    if "set" in a:
+                        # another sensor changed while evaluation a was suspended (a had read it already): b is the curve's
+                        # value for the NEW state, which the sequential evaluation right after this op shows
+                        nxt = cgo[i + 1] if i + 1 < len(cops) and cops[i + 1].startswith("cv.eval id=" + a["id"] + " ") else ""
+                        if not nxt.startswith("i"):
+                            continue
+                        wants["b"] = int(nxt.split()[0][1:])
                     for side in ("a", "b"):
                         r_ = got.get(side, "")
+                        want = wants[side]
                         if r_ != f"i{want}":
                             out.append(viol(f"curve {a['id']} evaluated by two controllers at once: evaluation {side} returned {r_}, "
                                             f"the curve's value for this sensor state is {want}", cops, cgo, upto=i,
